@@ -83,6 +83,18 @@ def run(harnesses, timeout_each=1500):
             elif os.path.exists(s):
                 shutil.copy(s, d)
         os.makedirs(os.path.join(scratch, 'tests'), exist_ok=True)
+        # cargo decides freshness by comparing source mtimes with the cached artifact, and the artifact hash does not depend on the
+        # (random) scratch path: a copy that preserves old mtimes would silently reuse the artifact of an EARLIER, DIFFERENT tree
+        # (observed: a clean run after a run on a modified copy reused the modified proc-macro: a false alarm).  Every copied file
+        # gets mtime = now, so the repository's own crates are always rebuilt from the text that was just copied; only the registry
+        # dependencies (syn, ..) stay cached.
+        now = time.time()
+        for root, _, files in os.walk(scratch):
+            for fn in files:
+                try:
+                    os.utime(os.path.join(root, fn), (now, now))
+                except OSError:
+                    pass
         for f in reg['files']:
             text = open(os.path.join(KANI_DIR, f['harness_file'])).read()
             if f['mode'] == 'append':
